@@ -54,6 +54,44 @@ def coq_blw_case(c, out):
         qlit(c['px']), qlit(c['cbw']), MODES.index(c['mode']), outs)
 
 
+def gen_resolve(rng, n):
+    """cases of the resolve-direct stream: every box-sizing keyword, 'auto' / px / % in every slot that admits it,
+    paddings and borders mostly small against the sizes but sometimes larger (the floor at 0), containing block of
+    fixed or auto height, collapsed borders already resolved or not"""
+    def length(auto, neg=False, big=False):
+        r = rng.random()
+        if auto and r < 0.3:
+            return 'auto'
+        v = Fraction(rng.choice([0, 0, 1, 2, 5, 10, 30, 60, 150] if not big else [0, 20, 80, 300, 1000]),
+                     rng.choice([1, 1, 1, 2, 3]))
+        if neg and rng.random() < 0.2:
+            v = -v
+        return ['%' if rng.random() < 0.4 else 'px', str(v)]
+    cases = []
+    for _ in range(n):
+        cbh = rng.choice(['auto', 'auto', '50', '400'])
+        lengths = [length(True, True) for _ in range(4)] + [length(False) for _ in range(4)] + \
+                  [length(True), length(True), length(False, big=True), length(True), length(True), length(False, big=True)]
+        if cbh == 'auto' and lengths[13][0] == '%':
+            lengths[13] = ['px', lengths[13][1]]      # a percentage max-height of an auto height is `inf`: not a rational
+        cases.append(dict(kw=rng.choice(['content-box', 'padding-box', 'border-box', 'border-box']),
+                          collapse=rng.random() < 0.3, has=[rng.random() < 0.5 for _ in range(4)], lengths=lengths,
+                          borders=[str(rng.choice([0, 0, 1, 3, 8])) for _ in range(4)],
+                          cbw=str(rng.choice([100, 200, 333])), cbh=cbh))
+    return cases
+
+
+def coq_resolve_case(c, out):
+    def cval(v):
+        return 'CAuto' if v == 'auto' else '(%s %s)' % ('CPx' if v[0] == 'px' else 'CPct', qlit(Fraction(v[1])))
+    b = lambda x: 'true' if x else 'false'
+    return '((%s, %s, (%s, %s, %s, %s)), [%s], (%s, %s, %s, %s), (%s, %s), [%s])' % (
+        slit(c['kw']), b(c['collapse']), *[b(x) for x in c['has']], '; '.join(cval(v) for v in c['lengths']),
+        *[qlit(Fraction(x)) for x in c['borders']], qlit(Fraction(c['cbw'])),
+        'None' if c['cbh'] == 'auto' else '(Some %s)' % qlit(Fraction(c['cbh'])),
+        '; '.join(vlit(parse_out(o)) for o in out))
+
+
 # ------------------------------------------------------------------------------------------ render monitor
 
 UNITS = ['px', '%', 'em']
@@ -278,12 +316,17 @@ def check(run):
     rng = random.Random(run.seed * 7919 + 5)
     thorough = run.tier == 'thorough'
     common.prove(run, 'C05', ['model/C05SpecPure.vo'])
-    common.coq_make(['model/C05Spec.vo', 'model/C05MinMax.vo'])
+    common.coq_make(['model/C05Spec.vo', 'model/C05MinMax.vo', 'model/C05ResolveSpec.vo', 'model/C05ResolveLink.vo'])
     run.trusted += ['Coq 8.16.1 kernel (coqc); vm_compute for the cases.v evaluation',
                     'tools/py2coq.py (printer) + coq/base/Py.v (interpreter): validated against CPython by stream blw-direct/collapse-direct',
                     'harness stubs (SimpleNamespace/Fraction) and render monitor (Python)']
     run.assumptions += ['vertical stacking/collapsing through the tree is tied by the Frag2 correspondence (C01/C03 streams), not re-proved here',
-                        'handle_min_max_width is modelled by hand (with_min_max) around the regenerated body and tied by stream blw-minmax-direct']
+                        'handle_min_max_width is modelled by hand (with_min_max) around the regenerated body and tied by stream blw-minmax-direct',
+                        'resolve_percentages / adjust_box_sizing / resolve_one_percentage: the printer specialises a function to constant '
+                        'string arguments (getattr / setattr / f-strings with constant names become attribute accesses); calls that mutate '
+                        'the box are linked by name to the regenerated specialisation (model/C05ResolveLink.v rlink); '
+                        'isinstance(box, boxes.PageBox) and the name inf are inputs; hasattr(box, border_*_width) is a function of the '
+                        'name (no statement before the question binds these attributes); lengths are rationals (max-height none = inf is outside)']
     # ---- stream 1: block_level_width, direct calls with Fractions, model = interpreter on the regenerated body
     cases = gen_blw(rng, 6000 if thorough else 1500)
     outs = common.run_impl('impl_c05', 'blw', cases)
@@ -356,6 +399,42 @@ def check(run):
                   samples=[{'case': kept[0][0], 'impl': kept[0][1]}] if kept else [])
     except RuntimeError as exc:
         run.oblige('corr:blw-minmax-direct', False, str(exc))
+    # ---- stream 1c: resolve_percentages (percentages, border widths, box-sizing), direct calls with Fractions.
+    # bit 1: the hand models resolve / adjust (independent of coq/gen) on the implementation's outputs;
+    # bit 0: the interpreter on the regenerated resolve_percentages, calls linked to the regenerated callees
+    rp_cases = gen_resolve(rng, 2400 if thorough else 600)
+    outs = common.run_impl('impl_c05', 'resolve_pct', rp_cases)
+    coq_cases, kept = [], []
+    for c, (st, o) in zip(rp_cases, outs):
+        if st != 'ok':
+            run.fail('resolve_percentages raised %s' % (o,), {'stream': 'resolve-direct', 'case': c, 'outcome': o},
+                     signature='resolve-raise')
+            continue
+        coq_cases.append(coq_resolve_case(c, o)); kept.append((c, o))
+    rp_type = '(string * bool * (bool * bool * bool * bool)) * list cval * (Q * Q * Q * Q) * (Q * option Q) * list val'
+    try:
+        smasks = common.eval_cases('c05rps', PRE_PURE + 'Require Import WV.model.C05BoxSizing WV.model.C05Resolve WV.model.C05ResolveSpec.\n',
+                                   rp_type, coq_cases, 'rp_spec_judge')
+        for (c, o), m in zip(kept, smasks):
+            if m & 2:
+                run.fail('used values after resolve_percentages differ from the percentage / box-sizing model',
+                         {'stream': 'resolve-direct', 'case': c, 'impl_output': o})
+                break
+        run.count('resolve-direct', len(kept),
+                  [(c['kw'], c['collapse'], c['cbh'] == 'auto', tuple(v if v == 'auto' else v[0] for v in c['lengths'][8:]))
+                   for c, _ in kept], samples=[{'case': kept[0][0], 'impl': kept[0][1]}] if kept else [])
+        run.stream_info('resolve-direct', rule='3 box-sizing keywords x auto/px/% in each of the 14 lengths x fixed/auto '
+                        'containing height x collapsed borders already resolved or not; distinct = (keyword, collapse, '
+                        'auto cb height, unit pattern of the six sizes)')
+    except RuntimeError as exc:
+        run.oblige('spec:resolve-direct', False, str(exc))
+    try:
+        masks = common.eval_cases('c05rpc', PRE + 'Require Import WV.model.C05BoxSizing WV.model.C05Resolve WV.model.C05ResolveLink.\n',
+                                  rp_type, coq_cases, 'rp_corr_judge')
+        run.oblige('corr:resolve-direct(model=interpreter on the regenerated resolve_percentages, calls linked, vs CPython)',
+                   not any(m & 1 for m in masks), str([k for k, m in zip(kept, masks) if m & 1][:2]))
+    except RuntimeError as exc:
+        run.oblige('corr:resolve-direct', False, str(exc))
     # ---- stream 2: collapse_margin
     lists = [[], [0], [5], [-5], [5, -5], [0, 0]]
     while len(lists) < (3000 if thorough else 800):
